@@ -8,7 +8,7 @@ ASCII subjects only (byte == rune); \\b/\\B and programs with epsilon cycles are
 import json
 import subprocess
 import os
-import z3
+import zz as z3
 from sym import *
 
 RXTOOL = os.path.join(os.path.dirname(os.path.abspath(__file__)), '..', '.build', 'rxtool')
@@ -107,7 +107,14 @@ def _byte_in(b, ranges):
     if is_c(b):
         return any(lo <= b <= hi for lo, hi in ranges)
     alts = []
+    blo, bhi = get_lb(b) or 0, get_ub(b)
+    if bhi is None:
+        bhi = 255
     for lo, hi in ranges:
+        if hi < blo or lo > bhi:
+            continue
+        if lo <= blo and hi >= bhi:
+            return True
         if lo == hi:
             alts.append(b == lo)
         elif lo == 0:
